@@ -66,6 +66,19 @@ theorem objectiveScoresSum_pure (ops : SpecOps σ K) (ev) (hp : PureEval ops ev)
     ∃ st', objectiveScoresSum ops F s st = (.ok (total ops ev F s), st') ∧ SameObs st st' :=
   scoresSum_pure ops ev hp s F.objectives Score.zero st
 
+theorem constraintsEvaluations_pure (ops : SpecOps σ K) (ev) (hp : PureEval ops ev) (s : Seq) (cs : List σ) (st : St σ K) :
+    ∃ r st', constraintsEvaluations ops s cs st = (.ok r, st') ∧ SameObs st st' := by
+  induction cs generalizing st with
+  | nil => exact ⟨[], st, rfl, SameObs.rfl' st⟩
+  | cons c cs ih =>
+    simp only [constraintsEvaluations]
+    split
+    · obtain ⟨r, st', h1, h2⟩ := ih st
+      exact ⟨none :: r, st', by simp [h1], h2⟩
+    · simp only [evalAt_pure ops ev hp]
+      obtain ⟨r, st', h1, h2⟩ := ih { st with nEval := st.nEval + 1 }
+      exact ⟨some (ev c s) :: r, st', by simp [h1], h2.1, h2.2.1, h2.2.2⟩
+
 /-- the order laws the solver relies on -/
 class LawfulScore (K : Type) [Score K] : Prop where
   lt_irrefl : ∀ a : K, Score.lt a a = false
